@@ -179,17 +179,17 @@ _tafix = None
 _genfix = None
 
 
-def _probe_variant(exe, key, progs, tag):
+def _probe_variant(exe, cands, progs, tag):
     """which variant of a repaired function does the code under test have?  Decided by conformance: a small probe configuration is
-    model-checked under <key> = TRUE and every transition replayed; if the code leaves that specification, the other variant is tried."""
+    model-checked under each candidate assignment of the variant constants in turn and every transition replayed; the first one the
+    code follows in lock-step is the answer (the last candidate if none)."""
     from muconfigs import C1
     prepare_spec()
     probe = Run("C00", "quick", "model_checking")
-    verdict = True
-    for fx in (True, False):
-        conf = dict(progs=progs, NV=1, conds=C1, DbgFixed=True, CvFix=True, TaFix=True if _tafix is None else _tafix, GenFix=True)
-        conf[key] = fx
-        out = run_config(probe, exe, "%s_probe_%s" % (tag, fx), conf, [], workers=2, prop="C00")
+    for k, cand in enumerate(cands):
+        conf = dict(progs=progs, NV=1, conds=C1, DbgFixed=True, CvFix=True, TaFix=True, TaWoke=True, GenFix=True)
+        conf.update(cand)
+        out = run_config(probe, exe, "%s_probe_%d" % (tag, k), conf, [], workers=2, prop="C00")
         try:
             os.unlink(out["sched"])
         except OSError:
@@ -200,19 +200,28 @@ def _probe_variant(exe, key, progs, tag):
             except OSError:
                 pass
         if not out["res"]["mismatch"]:
-            verdict = fx
-            break
-    return verdict
+            return cand
+    return cands[-1]
+
+
+_tawoke = None
 
 
 def detect_tafix(exe):
-    """mu_try_acquire_after_timeout_or_cancel's final stores (defect 6.7): a reader-mode conditional wait cancelled while another reader
-    holds the mutex."""
-    global _tafix
+    """mu_try_acquire_after_timeout_or_cancel: its final stores (defect 6.7) and whether its spin loop looks at the waiter's `waiting` flag
+    (defect 6.9).  Probe: a reader-mode conditional wait cancelled while another reader holds the mutex (the loop spins at least once)."""
+    global _tafix, _tawoke
     if _tafix is None:
         from muconfigs import mwt
-        _tafix = _probe_variant(exe, "TaFix", [P("R", mwt(1, cn=True), "RU"), P("R", "N", "RU")], "ta")
+        got = _probe_variant(exe, [dict(TaFix=True, TaWoke=True), dict(TaFix=True, TaWoke=False), dict(TaFix=False, TaWoke=False), dict(TaFix=False, TaWoke=True)],
+                             [P("R", mwt(1, cn=True), "RU"), P("R", "N", "RU")], "ta")
+        _tafix, _tawoke = got["TaFix"], got["TaWoke"]
     return _tafix
+
+
+def detect_tawoke(exe):
+    detect_tafix(exe)
+    return _tawoke
 
 
 def detect_genfix(exe):
@@ -245,7 +254,7 @@ def detect_genfix(exe):
 
 def variants(exe):
     """the spec parameters that name a variant of the code (a defect and its repair); observed from the code under test, never assumed"""
-    return {"DbgFixed": detect_dbgfixed(exe), "CvFix": detect_cvfix(exe), "TaFix": detect_tafix(exe), "GenFix": detect_genfix(exe)}
+    return {"DbgFixed": detect_dbgfixed(exe), "CvFix": detect_cvfix(exe), "TaFix": detect_tafix(exe), "TaWoke": detect_tawoke(exe), "GenFix": detect_genfix(exe)}
 
 
 def with_variants(conf, exe):
@@ -260,7 +269,7 @@ INV_OF = {"C01": {"Excl"}, "C02": {"NoStuck"}, "C04": {"PickedReportsWake", "NoS
           "C06": {"NoStuck"}, "C11": {"PickedReportsWake", "NoStuck"}, "C13": {"NoDeadRecordTouch", "NoTouchAfterFree"},
           "C14": {"SleepBound"}, "C16": {"Excl", "NoStuck", "WordAgrees"}}
 ORACLE_OF = {"C01": {"O-excl"}, "C02": {"O-prog"}, "C04": {"O-prog", "O-ret"}, "C05": {"O-ret", "O-prog"}, "C06": {"O-prog", "O-cond", "O-ret"},
-             "C11": {"O-ret", "O-prog", "O-mem"}, "C13": {"O-mem"}, "C14": {"O-starve"}, "C16": {"O-excl", "O-prog", "O-canary"}, "C03": {"O-hb"}}
+             "C11": {"O-ret", "O-prog", "O-mem"}, "C13": {"O-mem"}, "C14": {"O-starve"}, "C16": {"O-excl", "O-prog", "O-canary"}, "C03": {"O-hb"}, "C15": {"O-ret", "O-prog", "O-mem"}}
 ALWAYS = {"O-crash"}
 
 
@@ -286,7 +295,7 @@ def run_family(run, exe, prop, configs, parallel=5, workers=3, env=None, cap_tou
     import concurrent.futures as cf
     prepare_spec()
     var = variants(exe)
-    run.cov["spec_parameters_from_code"] = {"DbgFixed": var["DbgFixed"], "CvFix": var["CvFix"], "TaFix": var["TaFix"], "GenFix": var["GenFix"], "K": consts()["K"], "masks": {k: consts()[k] for k in ("WLOCK", "SPIN", "WAITING", "DESIG", "CONDB", "WRW", "LONGW", "ALLF", "RLOCK")},
+    run.cov["spec_parameters_from_code"] = {"DbgFixed": var["DbgFixed"], "CvFix": var["CvFix"], "TaFix": var["TaFix"], "TaWoke": var["TaWoke"], "GenFix": var["GenFix"], "K": consts()["K"], "masks": {k: consts()[k] for k in ("WLOCK", "SPIN", "WAITING", "DESIG", "CONDB", "WRW", "LONGW", "ALLF", "RLOCK")},
                                             "LTW": consts()["LTW"], "LTR": consts()["LTR"]}
 
     exe_bin = build("h_mub") if any(c.get("Binary") for _, c in configs) else None
@@ -418,7 +427,7 @@ def liveness_phase(run, prop, tier):
         return
     def one(name):
         conf = dict(muconfigs.FAM[name][0])
-        for k, v in (("DbgFixed", _dbgfixed), ("CvFix", _cvfix), ("TaFix", _tafix), ("GenFix", _genfix)):
+        for k, v in (("DbgFixed", _dbgfixed), ("CvFix", _cvfix), ("TaFix", _tafix), ("TaWoke", _tawoke), ("GenFix", _genfix)):
             conf.setdefault(k, True if v is None else v)
         tla, cfg = muconf.write_mc(MC, "live_" + name, conf, consts(), [], spec="FairSpecU", export=False, props=["Termination"])
         return name, tlc_plain(tla, cfg, workers=3, cwd=MC, timeout=3000)
